@@ -194,7 +194,7 @@ class Ctx:
         return out.reshape(D.shape)
 
     # ---- obligations
-    def equal(self, name, impl, oracle, tol=None, box=None, note="", rtol_replay=1e-6, linear_in=None):
+    def equal(self, name, impl, oracle, tol=None, box=None, note="", rtol_replay=1e-6, linear_in=None, validate=True):
         impl = np.asarray(impl, dtype=object if self.sym else float)
         oracle = np.asarray(oracle, dtype=object if self.sym else float)
         if impl.shape != oracle.shape:
@@ -209,6 +209,8 @@ class Ctx:
                 res.append(mk("-", a, b))
                 labels.append(list(i))
                 im.append(a)
+            if not validate:
+                im = []  # the float run computes this obligation differently (e.g. through a real solver): no DAG/float comparison
             if linear_in is not None:
                 # the residual is linear (homogeneous) in these variables: its coefficients are the
                 # per-variable derivatives; proving each of them (and the value at 0) is an exact split
